@@ -385,7 +385,7 @@ class PkgGen:
         r = self.r
         lits = [("1", "int"), ("2.5", "float"), ('"s"', "str"), ("True", "bool"), ("None", "None")]
         rets = []
-        shape = r.choice(["single", "if", "try", "loop", "tuple", "cond", "cond", "with", "match"])
+        shape = r.choice(["single", "if", "try", "loop", "tuple", "cond", "cond", "with", "match", "uninferable"])
         pick = lambda: r.choice(lits)
         if shape == "single":
             rets = [[pick()]]
@@ -426,6 +426,12 @@ class PkgGen:
             else:                 # call in the else-branch
                 rets = [[a]]
                 body = [f"return {a[0]} if len(str(0)) > 1 else len(str(0))"]
+        elif shape == "uninferable":
+            a = pick()
+            k = r.randrange(3)
+            rets = [[a]] if k else []
+            body = ["if len(str(0)) > 1:", "    return " + r.choice(["[1, 2]", "1 + 2", "{'a': 1}", "len('x') > 0", "lambda: 1"])]
+            body += [f"return {a[0]}"] if k else ["return [3]"]
         else:
             a, b, c = pick(), pick(), pick()
             rets = [[a, b], [c]]
@@ -472,6 +478,8 @@ class PkgGen:
         if depth_left > 0 and r.random() < 0.3:
             nn = self.names.pick(CLASSES, used, self.private_rate, cls=True)
             c["classes"].append(self.class_(ag, nn, f"{qname}.{nn}", [], depth_left - 1))
+        c["extras"] = {"setters": r.random() < 0.5, "overload": r.random() < 0.15, "subscript": r.random() < 0.4,
+                       "seq_base": r.random() < 0.1 and not c["bases"]}
         if r.random() < self.docs:
             c["doc"] = self.marker(f"class {name}")
         # documented attributes (numpydoc / google only: an "Attributes" section of the class docstring)
@@ -496,7 +504,7 @@ class PkgGen:
         if r.random() < 0.25:
             en = self.names.pick(["Color", "Mode", "my_enum"], used, self.private_rate * 0.5)
             members = r.sample(["RED", "GREEN", "blue_value", "val_x"], r.choice([0, 1, 2, 3]))
-            m["enums"].append({"kind": "enum", "name": en, "qname": f"{qn}.{en}", "members": members,
+            m["enums"].append({"kind": "enum", "name": en, "qname": f"{qn}.{en}", "members": members, "method": r.random() < 0.5,
                                "doc": self.marker(f"enum {en}") if r.random() < self.docs else ""})
         ag = AnnGen(r, local + (avail if self.cross_refs else []))
         for _ in range(r.choice([1, 2, 3, 4])):
@@ -617,6 +625,9 @@ def func_src(f, indent: str, style: str, classes_in_scope=None) -> list[str]:
 
 def class_src(c, indent: str, style: str) -> list[str]:
     bases = ", ".join(b[0] for b in c["bases"])
+    ex = c.get("extras", {})
+    if ex.get("seq_base"):
+        bases = "Sequence[int]"
     lines = [f"{indent}class {c['name']}" + (f"({bases})" if bases else "") + ":"]
     inner = indent + "    "
     adocs = [(a["name"], a["doc"]) for a in c["attrs"] + c["inst_attrs"] if a.get("doc")]
@@ -638,11 +649,20 @@ def class_src(c, indent: str, style: str) -> list[str]:
         f = dict(c["init"])
         f["extra_body"] = [f"self.{a['name']}" + (f": {ann_src(a['ann'])}" if a["ann"] is not None else "") + f" = {a['value']}"
                            for a in c["inst_attrs"]] or ["pass"]
+        if ex.get("subscript"):
+            f["extra_body"] += ['self.__dict__["extra_key"] = 1', "self.__dict__['a'], self.__dict__['b'] = 1, 2"]
         lines += func_src(f, inner, style)
         body = True
     for m in c["methods"]:
         lines += func_src(m, inner, style)
+        if m.get("is_property") and ex.get("setters"):
+            lines += [f"{inner}@{m['name']}.setter", f"{inner}def {m['name']}(self, new_value) -> None:", f"{inner}    ..."]
         lines.append("")
+        body = True
+    if ex.get("overload"):
+        lines += [f"{inner}@overload", f"{inner}def ov_{c['name'].strip('_')}(self, v: int) -> int: ...",
+                  f"{inner}@overload", f"{inner}def ov_{c['name'].strip('_')}(self, v: str) -> str: ...",
+                  f"{inner}def ov_{c['name'].strip('_')}(self, v):", f"{inner}    return v", ""]
         body = True
     for k in c["classes"]:
         lines += class_src(k, inner, style)
@@ -658,7 +678,7 @@ def module_src(m, style: str) -> str:
     lines = []
     if m["doc"]:
         lines.append(f'"""{m["doc"]}"""')
-    lines += ["from __future__ import annotations", "from typing import Any, Callable, Literal, Optional, Union",
+    lines += ["from __future__ import annotations", "from typing import Any, Callable, Literal, Optional, Union, overload",
               "from collections.abc import Collection, Mapping, Sequence", "from enum import Enum", ""]
     refs: set = set()
 
@@ -699,6 +719,8 @@ def module_src(m, style: str) -> str:
             lines.append(doc_block("plaintext", e["doc"], [], None, "    ").rstrip("\n"))
         for i, mem in enumerate(e["members"]):
             lines.append(f"    {mem} = {i + 1}")
+        if e.get("method"):
+            lines += ["    def describe(self) -> str:", "        return 'x'"]
         if not e["members"] and not e["doc"]:
             lines.append("    ...")
         lines.append("")
